@@ -10,6 +10,18 @@ CHECKS = {
                 technique="explicit-state BFS of the real MessageManager on a virtual network, lock-step reference hub, probe set in every state",
                 text="All reachable joint subscription states of 2-3 subscribers + 0-2 loggers + monitor are enumerated to a fixpoint on the real manager; every transition and a full probe set in every state are compared frame-by-frame with a reference hub; same-round operation pairs in both service orders and non-writable subsets are included.",
                 note="Trusted: virtual TCP model (conformance-checked against loopback), reference hub (vf/spec.py), bounds on clients/types."),
+    "C03": dict(engine="MMX", level="fault_enumeration", ref="DESIGN.md 4/C03",
+                technique="exhaustive fault enumeration (single faults and all pairs x service orders) against the real MessageManager on a virtual network",
+                text="Every fault of a finite alphabet (header-field boundaries, message type ids x payload shapes, hostile lengths and control payloads, FIN/RST at every byte offset of every protocol frame in every protocol position, connection floods, recipients dying before/while the manager writes) is applied singly and pairwise (same round under every service order and both hash orders, and consecutive rounds); the manager must keep running and keep serving bystanders and a fresh client pair, and its timers must keep firing.",
+                note="Trusted: virtual TCP model (its conformance pass against real loopback sockets runs inside this check). A peer that withholds the rest of a frame is never injected (documented stall)."),
+    "C05": dict(engine="MMX", level="model_checking", ref="DESIGN.md 4/C05",
+                technique="exhaustive schedule enumeration (injection schedules x service orders x bounded environment deviations) on the real MessageManager with stream invariants",
+                text="All injection schedules of two publishers, all service orders, and all placements of up to 2-3 deviations (timer ticks, control frames, non-writable receivers) are executed on the real manager; every written byte stream is checked for whole frames, msg_count 1,2,3,..., per-sender FIFO and pairwise cross-receiver order.",
+                note="Trusted: virtual TCP model; bounds: 2 publishers x <=3 messages, 4 receivers."),
+    "C19": dict(engine="MMX+SPEC", level="model_checking", ref="DESIGN.md 4/C19",
+                technique="explicit-state BFS of the real MessageManager with the control-frame alphabet, lock-step reference hub, ACK projection",
+                text="All reachable connection/subscription states under the control-heavy alphabet (all handshake variants incl. refused ones, repeated/no-op requests, MODULE_READY, CLIENT_SET_NAME, DISCONNECT, data, 0-2 loggers) are enumerated to a fixpoint; after every round the ACKNOWLEDGE frames on every connection are compared with the reference; every same-round pair runs in both service orders.",
+                note="Trusted: virtual TCP model, reference hub; <=4 modules + 2 loggers."),
 }
 
 ALL = [f"C{i:02d}" for i in range(1, 20)]
